@@ -17,6 +17,8 @@ import json
 import os
 import sys
 
+sys.path.insert(0, os.path.dirname(os.path.abspath(__file__)))
+
 REPO = os.environ.get("QEXPY_REPO", "/repo")
 HERE = os.path.dirname(os.path.abspath(__file__))
 GEN = os.path.join(os.path.dirname(HERE), "lean", "QExPy", "Generated")
@@ -184,143 +186,6 @@ def inline_def(fn, path):
     return args, Sub().visit(body[-1].value)
 
 
-OP1 = ["neg", "sqrt", "exp", "sin", "cos", "tan", "asin", "acos", "atan", "sec", "csc", "cot",
-       "log10", "ln"]
-OP2 = ["add", "sub", "mul", "div", "pow", "log"]
-DEG = {"sind": "sin", "cosd": "cos", "tand": "tan", "secd": "sec", "cscd": "csc", "cotd": "cot"}
-
-
-def gen_ops():
-    path = "qexpy/data/operations.py"
-    lits = literals()
-    tree = ast.parse(src(path))
-    broken = []
-    op1, op2, d1, d2 = {}, {}, {}, {}
-
-    def table(name):
-        node = find_assign(tree, name)
-        if not isinstance(node, ast.Dict):
-            raise Unsupported("{}: {} is not a dict literal".format(path, name))
-        return [(lit_key(k, lits, path), v) for k, v in zip(node.keys, node.values)]
-
-    # ---- OPERATIONS
-    try:
-        for key, val in table("OPERATIONS"):
-            try:
-                if isinstance(val, ast.Lambda):
-                    args = [a.arg for a in val.args.args]
-                    names = {a: "x{}".format(i) for i, a in enumerate(args)}
-                    term = ExprTr(path, names=names).tr(val.body)
-                    arity = len(args)
-                elif isinstance(val, ast.Attribute) and isinstance(val.value, ast.Name) and \
-                        val.value.id == "np" and val.attr in NP_FUNCS:
-                    term, arity = "({} x0)".format(NP_FUNCS[val.attr]), 1
-                else:
-                    raise Unsupported("{}: OPERATIONS[{}]".format(where(val, path), key))
-                (op1 if arity == 1 else op2)[key] = term
-                if arity not in (1, 2):
-                    raise Unsupported("{}: arity {}".format(where(val, path), arity))
-            except Unsupported as e:
-                broken.append(str(e))
-    except Unsupported as e:
-        broken.append(str(e))
-
-    # ---- DIFFERENTIATORS
-    try:
-        for key, val in table("DIFFERENTIATORS"):
-            try:
-                if isinstance(val, ast.Name):
-                    # name-mangled reference to a module-level def
-                    fn = find_def(tree, val.id)
-                    if fn is None:
-                        raise Unsupported("{}: DIFFERENTIATORS[{}] -> {}".format(
-                            where(val, path), key, val.id))
-                    args, body = inline_def(fn, path)
-                elif isinstance(val, ast.Lambda):
-                    args, body = [a.arg for a in val.args.args], val.body
-                else:
-                    raise Unsupported("{}: DIFFERENTIATORS[{}]".format(where(val, path), key))
-                target, operands = args[0], args[1:]
-                objs = {a: ("v{}".format(i), "d{}".format(i)) for i, a in enumerate(operands)}
-                term = ExprTr(path, objs=objs, target=target).tr(body)
-                (d1 if len(operands) == 1 else d2)[key] = term
-                if len(operands) not in (1, 2):
-                    raise Unsupported("{}: arity".format(where(val, path)))
-            except Unsupported as e:
-                broken.append(str(e))
-    except Unsupported as e:
-        broken.append(str(e))
-
-    for nm, tab, want in (("OPERATIONS(1)", op1, OP1), ("OPERATIONS(2)", op2, OP2),
-                          ("DIFFERENTIATORS(1)", d1, OP1), ("DIFFERENTIATORS(2)", d2, OP2)):
-        if sorted(tab) != sorted(want) and not broken:
-            broken.append("{}: keys of {} are {} (model alphabet {})".format(
-                path, nm, sorted(tab), sorted(want)))
-
-    # ---- degree variants
-    deg = {}
-    for name, inner in DEG.items():
-        try:
-            fn = find_def(tree, name)
-            if fn is None:
-                raise Unsupported("{}: def {} missing".format(path, name))
-            args, body = inline_def(fn, path)
-            if len(args) != 1 or not (isinstance(body, ast.Call) and isinstance(
-                    body.func, ast.Name) and len(body.args) == 1 and not body.keywords):
-                raise Unsupported("{}: body of {}".format(where(fn, path), name))
-            if body.func.id != inner:
-                raise Unsupported("{}: {} calls {} (model expects {})".format(
-                    where(fn, path), name, body.func.id, inner))
-            deg[name] = ExprTr(path, names={args[0]: "x0"}).tr(body.args[0])
-        except Unsupported as e:
-            broken.append(str(e))
-
-    def arm(tab, keys, default):
-        return "\n".join("  | .{} => {}".format(k, tab.get(k, default)) for k in keys)
-
-    zero = "(Num.ofNat 0)"
-    text = """/- GENERATED by vf/translate.py from {path} — do not edit. -/
-import QExPy.Num
-import QExPy.Model.Ops
-namespace QExPy.Gen
-variable {{α : Type}} [Num α]
-
-/-- reasons the translator could not follow the source (empty = tie intact) -/
-def opsTieBroken : List String := {broken}
-
-/-- OPERATIONS[op] for one-operand operators -/
-def op1 (o : Op1) (x0 : α) : α :=
-  match o with
-{op1}
-
-/-- OPERATIONS[op] for two-operand operators -/
-def op2 (o : Op2) (x0 x1 : α) : α :=
-  match o with
-{op2}
-
-/-- DIFFERENTIATORS[op](target, x): v0 = x.value, d0 = x.derivative(target) -/
-def d1 (o : Op1) (v0 d0 : α) : α :=
-  match o with
-{d1}
-
-/-- DIFFERENTIATORS[op](target, a, b): v0,d0 for the first operand, v1,d1 for the second -/
-def d2 (o : Op2) (v0 d0 v1 d1 : α) : α :=
-  match o with
-{d2}
-
-/-- the argument the degree variant passes to its radian function -/
-def degArg (o : DegOp) (x0 : α) : α :=
-  match o with
-{deg}
-
-end QExPy.Gen
-""".format(path=path, broken=lean_strlist(broken),
-           op1=arm(op1, OP1, "x0"), op2=arm(op2, OP2, "x0"),
-           d1=arm(d1, OP1, zero), d2=arm(d2, OP2, zero),
-           deg=arm(deg, list(DEG), "x0"))
-    return "Ops.lean", text, broken
-
-
 def lean_str(s):
     return '"' + s.replace("\\", "\\\\").replace('"', '\\"').replace("\n", "\\n") + '"'
 
@@ -329,7 +194,30 @@ def lean_strlist(xs):
     return "[" + ", ".join(lean_str(x) for x in xs) + "]"
 
 
-SECTIONS = {"ops": gen_ops}
+
+
+def _discover():
+    """every vf/tr/<name>.py with a gen() -> (filename, text, broken) is a section"""
+    import importlib
+    out = {}
+    d = os.path.join(HERE, "tr")
+    for f in sorted(os.listdir(d)):
+        if f.endswith(".py") and not f.startswith("_"):
+            out[f[:-3]] = importlib.import_module("tr." + f[:-3]).gen
+    return out
+
+
+class _Sections(dict):
+    def __missing__(self, k):
+        self.update(_discover())
+        return dict.__getitem__(self, k)
+
+    def all(self):
+        self.update(_discover())
+        return list(self)
+
+
+SECTIONS = _Sections()
 
 
 def write_if_changed(path, text):
@@ -346,7 +234,7 @@ def write_if_changed(path, text):
 
 
 def main(argv):
-    wanted = argv[1:] or list(SECTIONS)
+    wanted = argv[1:] or SECTIONS.all()
     report = {}
     for name in wanted:
         fname, text, broken = SECTIONS[name]()
